@@ -39,6 +39,12 @@ type UpdateHandler interface {
 	OnUpdate(*execution.JobConfig)
 }
 
+// AddHandler may optionally be implemented by an UpdateHandler to additionally
+// handle newly added JobConfigs.
+type AddHandler interface {
+	OnAdd(*execution.JobConfig)
+}
+
 func NewInformerWorker(ctrlContext *Context, handler UpdateHandler) *InformerWorker {
 	w := &InformerWorker{
 		Context: ctrlContext,
@@ -55,6 +61,7 @@ func (w *InformerWorker) WorkerName() string {
 func (w *InformerWorker) Init() {
 	// Add event handler when we get JobConfig updates.
 	w.jobconfigInformer.Informer().AddEventHandler(cache.ResourceEventHandlerFuncs{
+		AddFunc: w.enqueueAdd,
 		UpdateFunc: func(oldObj, newObj interface{}) {
 			w.handleUpdate(oldObj, newObj)
 		},
@@ -103,16 +110,34 @@ func (w *InformerWorker) enqueueFlush(obj interface{}) {
 	}
 }
 
+// enqueueAdd is called for JobConfigs that are added, which includes all
+// existing JobConfigs when the controller starts up.
+func (w *InformerWorker) enqueueAdd(obj interface{}) {
+	rjc, err := eventhandler.Executionv1alpha1JobConfig(obj)
+	if err != nil {
+		klog.ErrorS(err, "croncontroller: unable to handle event", "worker", w.WorkerName())
+		return
+	}
+	if handler, ok := w.handler.(AddHandler); ok {
+		handler.OnAdd(rjc)
+	}
+}
+
 type updateHandler struct {
-	updateChan chan *execution.JobConfig
+	updateChan chan flushRequest
 }
 
 var _ UpdateHandler = (*updateHandler)(nil)
+var _ AddHandler = (*updateHandler)(nil)
 
 func NewUpdateHandler(ctrlContext *Context) UpdateHandler {
 	return &updateHandler{updateChan: ctrlContext.updatedConfigs}
 }
 
+func (d *updateHandler) OnAdd(jobConfig *execution.JobConfig) {
+	d.updateChan <- flushRequest{jobConfig: jobConfig, added: true}
+}
+
 func (d *updateHandler) OnUpdate(jobConfig *execution.JobConfig) {
-	d.updateChan <- jobConfig
+	d.updateChan <- flushRequest{jobConfig: jobConfig}
 }
